@@ -5,12 +5,12 @@ from ..core import Case, hx
 from .. import gen
 from ..gen import Opt, schema_lines, LIST, MULTI, TITLE, NO_TITLE_DUPES, NOCASE, dbits
 
-THEOREMS = ["C09_setn_refines", "C09_setn_pristine", "C09_scalar_index_refused", "C09_wrong_type_refused", "C09_unknown_name_refused", "C09_append_keeps_defaults", "C09_setlist_replaces", "C09_remove_keeps_order", "C09_remove_missing_refused", "C09_remove_title_missing_refused", "C09_addtsec_existing_refused", "addlistInternal_appends", "lens_frame", "C09_other_options_untouched", "C09_api_frame"]
+THEOREMS = ["C09_setn_refines", "C09_setn_pristine", "C09_scalar_index_refused", "C09_wrong_type_refused", "C09_unknown_name_refused", "C09_append_keeps_defaults", "C09_setlist_replaces", "C09_remove_keeps_order", "C09_remove_missing_refused", "C09_remove_title_missing_refused", "C09_addtsec_existing_refused", "C09_addtsec_wrong_type", "C09_addtsec_never_replaces", "addlistInternal_appends", "lens_frame", "C09_other_options_untouched", "C09_api_frame"]
 PARTIAL = ("Proved per operation (refinement to list operations on the option's value sequence: set-at-index, append, replace-all, erase-at-index, "
            "refuse) and the frame property at any depth: an update through one option reference leaves the option at every disjoint reference "
            "exactly as it was (lens_frame), so every by-path setter - successful or refused - touches the addressed option only (C09_api_frame): the "
            "store is a map from references to value sequences and each call is a point update. Sequences are compositions of these; that a path "
-           "names the reference the caller means is C11_resolve. The tie enumerates all sequences to depth 2/3 over 53 calls from two start states "
+           "names the reference the caller means is C11_resolve. The tie enumerates all sequences to depth 2/3 over 58 calls from two start states "
            "plus random sequences to length 40.")
 VARIANT = "asan"
 RULE = ("operation sequences over a finite alphabet of API calls and arguments (scalar/indexed setters, cfg_setlist/addlist, "
@@ -40,6 +40,10 @@ OPS = [
     "SM 0 %s %s %s" % (hx("fl"), hx("2.5"), hx("1e3")), "SM 0 %s %s %s" % (hx("fl"), hx("0.5"), hx("1.5x")),
     "SM 0 %s %s %s" % (hx("bl"), hx("yes"), hx("Off")), "SM 0 %s %s %s" % (hx("bl"), hx("on"), hx("maybe")), "SM 0 %s %s" % (hx("b"), hx("TRUE")), "SO 0 %s %s" % (hx("l"), hx("21")), "SO 0 %s %s" % (hx("i"), hx("zz")), "SO 0 %s %s" % (hx("i"), hx("0x10")),
     "AT 0 %s %s" % (hx("m"), hx("a")), "AT 0 %s %s" % (hx("m"), hx("b")), "AT 0 %s %s" % (hx("u"), hx("a")), "AT 0 %s %s" % (hx("nosuch"), hx("a")),
+    # adding a "section" to an option that is not one, and adding one without a title (F37)
+    "AT 0 %s %s" % (hx("i"), hx("5")), "AT 0 %s -" % hx("m"), "AT 0 %s -" % hx("n"),
+    # the same title in another letter case: the same section under a case-insensitive context, another one otherwise
+    "AT 0 %s %s" % (hx("m"), hx("A")), "RT 0 %s %s" % (hx("m"), hx("A")),
     "RN 0 %s 0" % hx("m"), "RN 0 %s 1" % hx("m"), "RT 0 %s %s" % (hx("m"), hx("a")), "RT 0 %s %s" % (hx("u"), hx("zz")), "RS 0 %s" % hx("m=b"),
     "RS 0 %s" % hx("m=zz"), "RN 0 %s 0" % hx("one"), "RN 0 %s 0" % hx("i"), "RT 0 %s %s" % (hx("n"), hx("a")),
     "SI 0 %s 0 4" % hx("m=a|x"), "AL 0 %s 6" % hx("m=a|xl"), "SI 0 %s 0 2" % hx("one|w"), "AL 0 %s %s" % (hx("one|wl"), hx("c")),
@@ -50,8 +54,8 @@ OPS = [
 PARSED = b"i = 3\nl += {4}\nm a { x = 1 }\nm b { }\nu a { y = q }\nn { z = 1 }\nn { z = 2 }\none { w = 5 }\n"
 
 
-def mk(cid, seq, parsed, meta):
-    lines = schema_lines(SCHEMA) + ["X 0 0"]
+def mk(cid, seq, parsed, meta, nocase=False):
+    lines = schema_lines(SCHEMA) + ["X 0 %d" % (NOCASE if nocase else 0)]
     if parsed:
         lines += ["PB 0 " + hx(PARSED)]
     for op in seq:
@@ -71,10 +75,14 @@ def generate(rng, tier):
             for parsed in ((False, True) if d <= 2 else (rng.random() < 0.5,)):
                 cases.append(mk("x%d" % n, list(seq), parsed, {"kind": "exhaustive", "depth": d}))
                 n += 1
+            if d == 1 or (d == 2 and any(" 6d " in op for op in seq)):
+                # case-insensitive context (matters for the titled section m only)
+                cases.append(mk("x%d" % n, list(seq), True, {"kind": "exhaustive", "depth": d, "nocase": True}, nocase=True))
+                n += 1
     nrand = 1500 if tier == "quick" else 60000
     for _ in range(nrand):
         seq = [rng.choice(OPS) for _ in range(rng.randint(3, 40))]
-        cases.append(mk("r%d" % n, seq, rng.random() < 0.5, {"kind": "random", "depth": len(seq)}))
+        cases.append(mk("r%d" % n, seq, rng.random() < 0.5, {"kind": "random", "depth": len(seq)}, nocase=rng.random() < 0.3))
         n += 1
     return cases
 
